@@ -77,3 +77,15 @@ Proof.
     pose proof (HM 0%nat 0%nat ltac:(lia) ltac:(lia)) as A. pose proof (HM 1%nat 0%nat ltac:(lia) ltac:(lia)) as B.
     unfold mmul, delta, kmat_entry, aget2, arow, aget in A, B. simpl in A, B. lra.
 Qed.
+
+(* the concrete reordering relation is satisfiable: the two points of S_ex swapped, target 0 of Q_ex
+   becomes target 1, data [3; 5] become [5; 3] *)
+Example ex_cond_reordered : cond_reordered S_ex S_ex Q_ex Q_ex [3; 5; 0] [5; 3; 0] swap01 swap01 0 1.
+Proof.
+  unfold cond_reordered. simpl. repeat split; try lia.
+  all: try (intros i Hi; destruct i as [|[|i]]; try lia; simpl; repeat split; lia).
+  all: try (intros i j Hi Hj; destruct i as [|[|i]]; try lia; destruct j as [|[|j]]; try lia; reflexivity).
+  all: try (intros i Hi; destruct i as [|[|[|i]]]; try lia; reflexivity).
+  all: try (intros l i Hl; lia).
+  all: try (intros l Hl; lia).
+Qed.
